@@ -63,6 +63,7 @@ SaKnobs knobs_alloc(const J& plan) {
   k.backend = (int)kn.getu("be", BE_DIRECT);
   k.realloc_mode = (int)kn.getu("rm", 0);
   k.max_request = kn.getu("maxreq", (uint64_t)1 << 20);
+  k.pack = kn.getu("pack", 0) != 0;
   { uint64_t f = kn.getu("fill", 0); k.fill = f == 1 ? 0x00 : f == 2 ? 0xFF : 0xAA; }
 #ifdef SIM_FLAVOUR_TSAN
   if (k.backend == BE_ARENA) k.backend = BE_DIRECT;
